@@ -16,17 +16,21 @@
 
 namespace QtLogger {
 
-namespace {
+// One object per program, also when this file is part of the single header and compiled into
+// several translation units (QTLOGGER_DECL_SPEC is `inline` there): in an unnamed namespace
+// every translation unit would have its own copy, and the functions below, which the linker
+// merges, would read one copy and write another.
 
 #ifndef QTLOGGER_NO_THREAD
+QTLOGGER_DECL_SPEC
 QAtomicPointer<Logger> g_activeLogger;
 #else
+QTLOGGER_DECL_SPEC
 Logger *g_activeLogger = nullptr;
 #endif
 
+QTLOGGER_DECL_SPEC
 QtMessageHandler g_previousMessageHandler = nullptr;
-
-}
 
 QTLOGGER_DECL_SPEC
 Logger *Logger::instance()
